@@ -309,7 +309,7 @@ def run_obligation(prop: str, obl: Obl, workroot: Path, tier: str = "quick") -> 
 def _match_known(obl: Obl, v: Verdict, key: str):
     v.finding_key = key
     for k in known_for(obl.id):
-        if k.get("key") == key or k.get("key") == "*":
+        if k.get("key") in (key, "*") or key.endswith(":" + str(k.get("key"))):
             v.known = True
             v.extra["known_what"] = k.get("what", "")
 
